@@ -439,6 +439,32 @@ HEADER_OPS = {
     'content_range': (lambda r: setattr(r, 'content_range', (0, 9, 100)), ['content-range']),
     'downloadable_as': (lambda r: setattr(r, 'downloadable_as', 'r\xe9p\xf6rt €.txt'), ['content-disposition']),
     'viewable_as': (lambda r: setattr(r, 'viewable_as', 'a b.txt'), ['content-disposition']),
+    # names the framework itself must turn into an ASCII/latin-1 header value (filename fallback + filename*)
+    'download_cyrillic': (lambda r: setattr(r, 'downloadable_as', '\u043e\u0442\u0447\u0451\u0442.pdf'),
+                          ['content-disposition']),
+    'download_greek': (lambda r: setattr(r, 'downloadable_as', '\u03b1\u03c1\u03c7\u03b5\u03af\u03bf 1.txt'),
+                       ['content-disposition']),
+    'download_cjk': (lambda r: setattr(r, 'downloadable_as', '\u5831\u544a\u66f8.pdf'), ['content-disposition']),
+    'download_mixed_digits': (lambda r: setattr(r, 'downloadable_as', 'report-\u03a9-\u0663\u0664_\u0967.txt'),
+                              ['content-disposition']),
+    'download_latin1_plain': (lambda r: setattr(r, 'downloadable_as', 'stra\xdfe-\xf8l-\xe6.txt'),
+                              ['content-disposition']),
+    'download_fullwidth': (lambda r: setattr(r, 'downloadable_as', '\uff46\uff55\uff4c\uff4c\uff11.txt'),
+                           ['content-disposition']),
+    'download_dotfile': (lambda r: setattr(r, 'downloadable_as', '.\u0441\u043a\u0440\u044b\u0442\u044b\u0439'),
+                         ['content-disposition']),
+    'download_emoji': (lambda r: setattr(r, 'downloadable_as', '\U0001F600 party.gif'), ['content-disposition']),
+    'download_hebrew_arabic': (lambda r: setattr(r, 'downloadable_as', '\u05e9\u05dc\u05d5\u05dd-\u0633\u0644\u0627\u0645.doc'),
+                               ['content-disposition']),
+    'view_cyrillic': (lambda r: setattr(r, 'viewable_as', '\u0444\u043e\u0442\u043e 2.jpg'), ['content-disposition']),
+    'view_cjk_kana': (lambda r: setattr(r, 'viewable_as', '\u3057\u3083\u3057\u3093\u30ab\u30e1\u30e9.png'),
+                      ['content-disposition']),
+    'view_mixed': (lambda r: setattr(r, 'viewable_as', 'a\u0142\u0131\u0111-\u0152uvre.txt'), ['content-disposition']),
+    'location_nonlatin': (lambda r: (setattr(r, 'location', '/\u0444\u0430\u0439\u043b/\u5831?q=\u03a9'),
+                                     setattr(r, 'content_location', '/\u05e9/\u0663')), ['location', 'content-location']),
+    'link_title_star_nonlatin': (lambda r: r.append_link('/\u0434\u043e\u043a', 'next',
+                                                         title_star=('ru', '\u0417\u0430\u0433\u043e\u043b\u043e\u0432\u043e\u043a \u5831'),
+                                                         anchor='/\u03b1'), ['link']),
     'link': (lambda r: r.append_link('/things/1', 'next', title='T', hreflang=['en', 'de']), ['link']),
     'link2': (lambda r: (r.append_link('/a', 'prev'), r.append_link('/b?x=\xe9', 'last', title_star=('en', 'T\xeftle'))),
               ['link']),
@@ -521,6 +547,7 @@ def apply_render_fail(resp, r, obs):
 class Obs:
     def __init__(self):
         self.render_failed = False
+        self.pre_rendered = []
         self.logs = []
         self.filled = 0
         self.renders = 0
@@ -597,8 +624,38 @@ def _prerender_value():
     return None if pre is None else pre[0]
 
 
+def _set_pre(resp, op):
+    if op[0] == 'text':
+        resp.text = op[1]
+    elif op[0] == 'data':
+        resp.data = op[1]
+    elif op[0] == 'media':
+        resp.media = op[1]
+    else:
+        raise ValueError(op)
+
+
+def run_pre_sync(resp):
+    """Earlier steps of the filling-in history: assignments and calls of the public render_body()."""
+    for op in CUR['r'].get('pre') or []:
+        if op[0] == 'render':
+            CUR['obs'].pre_rendered.append(resp.render_body())
+        else:
+            _set_pre(resp, op)
+
+
+async def run_pre_async(resp):
+    for op in CUR['r'].get('pre') or []:
+        if op[0] == 'render':
+            CUR['obs'].pre_rendered.append(await resp.render_body())
+        else:
+            _set_pre(resp, op)
+
+
 class WResource:
     def on_get(self, req, resp):
+        if CUR['r'].get('via', 'responder') != 'sink':
+            run_pre_sync(resp)       # via == 'mw': the responder starts, process_response finishes
         if CUR['r'].get('via', 'responder') == 'responder':
             if CUR['r'].get('prerender') is not None:
                 # the application looks at the rendered body (public API) and then changes its mind
@@ -612,6 +669,8 @@ class WResource:
 
 class AResource:
     async def on_get(self, req, resp):
+        if CUR['r'].get('via', 'responder') != 'sink':
+            await run_pre_async(resp)
         if CUR['r'].get('via', 'responder') == 'responder':
             if CUR['r'].get('prerender') is not None:
                 resp.media = _prerender_value()
@@ -635,10 +694,12 @@ class AMiddleware:
 
 
 def w_sink(req, resp, **kw):
+    run_pre_sync(resp)
     _guarded_fill(resp)
 
 
 async def a_sink(req, resp, **kw):
+    await run_pre_async(resp)
     _guarded_fill(resp)
 
 
@@ -732,7 +793,8 @@ def classify(kind, r):
     app_ct = r.get('ct') is not None and r['ct'][0] in ('prop', 'header', 'headers')
     if (kind == 'content-type-on-typeless' and code in M.TYPELESS and not app_ct and
             ((r.get('text') is None and r.get('data') is None and
-              r.get('media', ['unset'])[0] == 'set' and r['media'][1] is not None) or r.get('prerender') is not None)
+              r.get('media', ['unset'])[0] == 'set' and r['media'][1] is not None) or r.get('prerender') is not None
+             or M.media_rendered_in_history(r))
             and not custom_line):
         # render_body() stores the default media type in resp.content_type while rendering media
         return K_MEDIA_CT
@@ -829,6 +891,8 @@ def judge_render_fail(rec, r, res, obs):
 
 
 def judge(rec, r, res, obs):
+    orig = r
+    r = M.effective(r)          # earlier steps of the filling-in history folded in (keeps every other key)
     stack = r['stack']
     code = M.status_code(r['status'])
     src = M.selected_source(r)
@@ -838,7 +902,7 @@ def judge(rec, r, res, obs):
     def bad(kind, **extra):
         nonlocal wit
         if wit is None:
-            wit = {'recipe': compact(r), 'got': summary(res, stack)}
+            wit = {'recipe': compact(orig), 'got': summary(res, stack)}
         w = dict(wit)
         w.update(extra)
         rec.violation(kind, w, known_key=classify(kind, r))
@@ -1055,6 +1119,11 @@ def position(k, n):
 
 
 def note_coverage(rec, r, res, obs):
+    if r.get('pre'):
+        rec.count('history.with_render' if any(op[0] == 'render' for op in r['pre']) else 'history.plain')
+        if obs.pre_rendered:
+            rec.count('history.render_calls', len(obs.pre_rendered))
+    r = M.effective(r)
     stack = r['stack']
     src = M.selected_source(r)
     sc = status_class(r)
@@ -1277,6 +1346,51 @@ def fault_cases(stack, big):
                                 yield mk(None, f, none_reads=nr)
 
 
+STALE = {'text': 'stale t\xe9xt', 'data': b'stale \xff data', 'media': {'stale': [1]}}
+STALE2 = {'text': 'second stale', 'data': b'second stale', 'media': ['second', 'stale']}
+
+
+def history_patterns():
+    """Earlier steps of a filling-in history that call the public render_body() at some point."""
+    fields = ('text', 'data', 'media')
+    yield [['render']]
+    for x in fields:
+        yield [[x, STALE[x]], ['render']]
+        yield [[x, STALE[x]], ['render'], [x, None]]
+        yield [[x, STALE[x]], ['render'], ['render']]
+        yield [['render'], [x, STALE[x]]]
+        for y in fields:
+            yield [[x, STALE[x]], ['render'], [y, STALE2[y]], ['render']]
+            if y != x:
+                yield [[x, STALE[x]], [y, STALE2[y]], ['render'], [y, None], ['render']]
+
+
+def history_cases(stack):
+    """render_body() called at any point of the history, then any subset of the body attributes (re)assigned."""
+    kinds = WSGI_KINDS if stack == 'wsgi' else ASGI_KINDS
+    subsets = [dict(zip(('text', 'data', 'media', 'stream'), bits)) for bits in itertools.product((0, 1), repeat=4)]
+    n = 0
+    for pre in history_patterns():
+        for sub in subsets:
+            for rc in RESP_CLASSES:
+                n += 1
+                r = {'stack': stack, 'method': 'HEAD' if n % 11 == 0 else ('POST' if n % 5 == 0 else 'GET'),
+                     'status': [['int', 200], ['int', 200], ['line', '404 Not Found'], ['enum', 204]][n % 4],
+                     'text': None, 'data': None, 'media': ['unset'], 'stream': None, 'sse': None, 'ct': None,
+                     'cl': None if n % 3 else ['prop', 5], 'rc': rc, 'pre': pre,
+                     'via': ('responder', 'mw', 'sink')[(n // 3) % 3]}
+                if sub['text']:
+                    r['text'] = GRID_TEXT
+                if sub['data']:
+                    r['data'] = GRID_DATA
+                if sub['media']:
+                    r['media'] = ['set', GRID_MEDIA]
+                if sub['stream']:
+                    kind = kinds[n % len(kinds)]
+                    r['stream'] = {'kind': kind, 'chunks': [c for c in GRID_CHUNKS if c], 'raise_at': None}
+                yield r
+
+
 def render_fail_cases(stack):
     """Every render-time failure cause x preset Content-Length x response class x method x way of filling in."""
     n = 0
@@ -1463,6 +1577,20 @@ def gen_recipe(rng):
         if cause == 'render_body_raises':
             r['rc'] = 'sub_render'
         return r
+    if r['mt'] is None and r.get('sse') is None and rng.random() < 0.2 and (
+            r['ct'] is None or r['ct'][0] in ('none', 'set_then_none') or r['ct'][1] in JSON_CTS):
+        pre = []
+        for _ in range(rng.randint(1, 5)):
+            t = rng.random()
+            if t < 0.4:
+                pre.append(['render'])
+            else:
+                f = rng.choice(['text', 'data', 'media'])
+                pre.append([f, rng.choice([None, STALE[f], STALE2[f]])])
+        r['pre'] = pre
+        if M.selected_source(M.effective(r)) == 'media' and r['ct'] is not None and r['ct'][0] in ('prop', 'header', 'headers'):
+            r['ct'] = [r['ct'][0], rng.choice(JSON_CTS)]
+        return r
     if r['via'] == 'responder' and r['mt'] is None and rng.random() < 0.2 and (
             r['ct'] is None or r['ct'][0] in ('none', 'set_then_none') or r['ct'][1] in JSON_CTS):
         r['prerender'] = [rng.choice([{'stale': True}, 'stale', [0]])]
@@ -1488,6 +1616,8 @@ def run(rec):
         'render-time failures (unserializable media, unsupported type, raising handler / render_body / file_wrapper): '
         'only protocol validity and length consistency of the answer are demanded, not a non-empty error body (C04)',
         'after http.disconnect an SSE emitter may be abandoned early; a terminating body event is still owed',
+        'a filling-in history may call the public render_body() at any point; only the last assignment of each '
+        'attribute decides the body (vlib/models/c05_response.py effective())',
         'byte-string statuses (line or bare code) are accepted input (falcon\'s suite assigns resp.status = b\'200 OK\'); '
         'other spellings int() would accept (float, signs, underscores, whitespace) are not generated',
         'read() of an ASYNC file-like may answer None (no data yet, io.RawIOBase convention; falcon normalises it to an '
@@ -1497,7 +1627,7 @@ def run(rec):
     idx = 0
     for stack in ('wsgi', 'asgi'):
         for gen in (grid_cases(stack), falsy_cases(stack), decor_cases(stack), fault_cases(stack, big=not quick),
-                    render_fail_cases(stack)):
+                    render_fail_cases(stack), history_cases(stack)):
             for r in gen:
                 idx += 1
                 if idx % rec.nshards != rec.shard:
@@ -1566,6 +1696,8 @@ def run(rec):
                 rec.floor('render_fail.%s.%s.%s' % (stack, cause, cl), 4)
     rec.floor('mon.render_fail.content_length_equals_body', 100)
     rec.floor('streamed.asgi.read_answered_none', 50)
+    rec.floor('history.with_render', 500)
+    rec.floor('history.render_calls', 500)
     rec.floor('sse.disconnect.truncated', 10)
     rec.floor('sse.disconnect.full', 10)
     rec.floor('asgi.disconnect_after', 50)
